@@ -173,9 +173,30 @@ func runC12Alive(mode int) (events []sx.V, fails []c12Fail, bad string) {
 			fail("alive-connection-dropped", fmt.Sprintf("the server saw %d transport connections although a packet reached the client at least every 3 s (the silence rule must not fire)", g))
 		}
 	}
+	events = c12TimedHistory(srv, t0, log, mode == 0)
+	if mode == 2 {
+		l.mu.Lock()
+		for _, t := range l.upAt[1:] {
+			if d := t.Sub(t0); d < 9500*time.Millisecond {
+				fail("silence-reconnect-early", fmt.Sprintf("the silent connection was re-established after %v, before reconnectTimeout", d))
+			}
+		}
+		l.mu.Unlock()
+	}
+	return events, fails, bad
+}
+
+// c12TimedHistory merges what the harness logged with what the server recorded
+// (pings received, pongs written, completed handshakes) and inserts one 'tick
+// per second of wall clock (rounded: the client's timers started a moment before t0).
+func c12TimedHistory(srv *c12Server, t0 time.Time, log []c12Timed, pinger bool) (events []sx.V) {
+	l := srv.lns[0]
 	srv.mu.Lock()
 	for _, t := range srv.pongAt {
 		log = append(log, c12Timed{t.Sub(t0), sx.L(sx.A("pong"), sx.Nat(0), sx.Nat(0))})
+	}
+	for _, t := range srv.pingAt {
+		log = append(log, c12Timed{t.Sub(t0), sx.L(sx.A("ping"), sx.Nat(0))})
 	}
 	srv.mu.Unlock()
 	l.mu.Lock()
@@ -184,13 +205,14 @@ func runC12Alive(mode int) (events []sx.V, fails []c12Fail, bad string) {
 	}
 	l.mu.Unlock()
 	sort.SliceStable(log, func(a, b int) bool { return log[a].t < log[b].t })
-	// wall clock -> ticks of one second (rounded: the client's timer started a
-	// moment before t0)
 	ticks := func(d time.Duration) int {
 		if d < 0 {
 			return 0
 		}
 		return int((d + 500*time.Millisecond) / time.Second)
+	}
+	if pinger {
+		events = append(events, sx.L(sx.A("pinger"), sx.Nat(0)))
 	}
 	prev := 0
 	for _, ev := range log {
@@ -200,14 +222,122 @@ func runC12Alive(mode int) (events []sx.V, fails []c12Fail, bad string) {
 		}
 		events = append(events, ev.v)
 	}
-	if mode == 2 {
-		for _, ev := range log {
-			if ev.v.Head() == "up" && ev.t < 9500*time.Millisecond {
-				fail("silence-reconnect-early", fmt.Sprintf("the silent connection was re-established after %v, before reconnectTimeout", ev.t))
-			}
+	return events
+}
+
+const (
+	c12PingerCallAt   = 8500 * time.Millisecond  // after the reconnect: the call is issued
+	c12PingerAnswerAt = 11500 * time.Millisecond // ... and answered, past the 10 s silence mark of the new reader
+)
+
+// runC12Pinger: an unmodified connection (real pinger), idle, is reset by the
+// server.  Only the pinger can notice.  After the client has re-established the
+// connection the pings have to go on at the usual rate (the server answers each),
+// so the new connection is never silent: a call issued 8.5 s after the reconnect
+// and answered 11.5 s after it gets its answer, and there is exactly one further
+// transport connection.
+func runC12Pinger(rst bool) (events []sx.V, fails []c12Fail, bad string) {
+	c12Quiet()
+	fail := func(key, what string) { fails = append(fails, c12Fail{key, what}) }
+	srv, err := newC12Server(1)
+	if err != nil {
+		return nil, nil, "env: " + err.Error()
+	}
+	srv.autoPong = true
+	l := srv.lns[0]
+	e := &c12Env{srv: srv, D: c12AliveTimeout}
+	copy(e.tag[:], "pingers ")
+	ctx, cancel := context.WithTimeout(context.Background(), 5*time.Second)
+	conn, err := liteclient.NewConnection(ctx, srv.pub, l.ln.Addr().String())
+	cancel()
+	if err != nil {
+		srv.close()
+		return nil, nil, "dial: " + err.Error()
+	}
+	e.conns = []*liteclient.Connection{conn}
+	e.cl = liteclient.NewClient(conn, liteclient.OptionTimeout(c12AliveTimeout))
+	if !c12Wait(2*time.Second, func() bool { _, g := l.current(); return g >= 1 }) {
+		return nil, nil, "handshake not completed"
+	}
+	t0 := time.Now()
+	var log []c12Timed
+	at := func(v sx.V) { log = append(log, c12Timed{time.Since(t0), v}) }
+	time.Sleep(200 * time.Millisecond)
+	r := 0
+	if rst {
+		r = 1
+	}
+	at(sx.L(sx.A("drop"), sx.Nat(0), sx.Nat(r)))
+	srv.drop(0, rst)
+	// the pinger (every 3 s) is the only one who can notice
+	if !c12Wait(12*time.Second, func() bool {
+		_, g := l.current()
+		if g < 2 {
+			return false
+		}
+		st, answered := c12Status(conn)
+		return answered && st == liteclient.Connected
+	}) {
+		fail("no-reconnect-idle", "an idle connection reset by the server was not re-established within 12 s (the pinger has to notice)")
+		return c12TimedHistory(srv, t0, log, true), fails, ""
+	}
+	l.mu.Lock()
+	tU := l.upAt[1]
+	l.mu.Unlock()
+	time.Sleep(time.Until(tU.Add(c12PingerCallAt)))
+	c := e.startCall(0, 0)
+	var q c12Query
+	got := c12Wait(5*time.Second, func() bool {
+		var ok bool
+		q, ok = srv.query(c.key)
+		return ok || c.returned()
+	})
+	if got {
+		q, got = srv.query(c.key)
+	}
+	d := uint64(1<<11 | 12)
+	if got {
+		at(sx.L(sx.A("recv"), sx.Nat(0), sx.Nat(0)))
+		fc, _ := l.current()
+		time.Sleep(time.Until(tU.Add(c12PingerAnswerAt)))
+		if fc.send(c12Answer(q.id, c12Data(d))) == nil {
+			at(sx.L(sx.A("ans"), sx.Nat(0), sx.Nat(0), sx.N(d)))
 		}
 	}
-	return events, fails, bad
+	if !c.wait(time.Until(c.start.Add(c12AliveTimeout + c12Hang))) {
+		fail("call-hangs", "the call has not returned")
+		return c12TimedHistory(srv, t0, log, true), fails, "hang"
+	}
+	switch {
+	case c.class() == c12Ok && string(c.res) == string(c12Data(d)):
+		at(sx.L(sx.A("ret"), sx.Nat(0), sx.L(sx.A("ok"), sx.N(d))))
+	case c.class() == c12Ok:
+		fail("foreign-answer", "the call returned bytes other than its answer")
+		at(sx.L(sx.A("ret"), sx.Nat(0), sx.L(sx.A("ok"), sx.N(0))))
+	case c.class() == c12Timeout:
+		at(sx.L(sx.A("ret"), sx.Nat(0), sx.A("expired")))
+		fail("alive-connection-dropped", fmt.Sprintf("the call issued %v after the reconnect and answered by the server %v after it (client timeout %v) returned %q: the re-established connection did not stay up",
+			c12PingerCallAt, c12PingerAnswerAt, c12AliveTimeout, c.err))
+	default:
+		at(sx.L(sx.A("ret"), sx.Nat(0), sx.A("err")))
+		fail("alive-connection-dropped", fmt.Sprintf("the call after the reconnect: %v", c.err))
+	}
+	// pings after the reconnect: one every 3 s
+	srv.mu.Lock()
+	n := 0
+	for _, t := range srv.pingAt {
+		if t.After(tU) && t.Before(tU.Add(c12PingerAnswerAt)) {
+			n++
+		}
+	}
+	srv.mu.Unlock()
+	if n < 2 {
+		fail("ping-missing-after-reconnect", fmt.Sprintf("the server received %d pings in the %v after the client re-established the connection (one every 3 s expected): the connection has lost its pinger", n, c12PingerAnswerAt))
+	}
+	if _, g := l.current(); g != 2 {
+		fail("alive-connection-dropped", fmt.Sprintf("the server saw %d transport connections, 2 expected (the original one and the reconnect): a connection that is pinged and ponged must not be dropped", g))
+	}
+	return c12TimedHistory(srv, t0, log, true), fails, ""
 }
 
 const (
